@@ -119,6 +119,8 @@ pub struct ScriptedReader<'a> {
     /// number of transient failures (Step::Fail) reported so far
     pub transients: Rc<Cell<u64>>,
     pub last_transient: Rc<Cell<io::ErrorKind>>,
+    /// a transient failure (as Step::Fail) that fires once, at the first read issued at or after this stream position
+    pub fail_once_at: Option<(usize, io::ErrorKind)>,
 }
 
 impl<'a> ScriptedReader<'a> {
@@ -140,6 +142,7 @@ impl<'a> ScriptedReader<'a> {
             eof_as_error: false,
             transients: Rc::new(Cell::new(0)),
             last_transient: Rc::new(Cell::new(io::ErrorKind::Other)),
+            fail_once_at: None,
         }
     }
     pub fn with_fault(mut self, pos: usize, kind: io::ErrorKind) -> Self {
@@ -174,6 +177,14 @@ impl<'a> AsyncRead for ScriptedReader<'a> {
             cx.waker().wake_by_ref();
             return Poll::Pending;
         }
+        let step = match me.fail_once_at {
+            Some((fp, kind)) if me.pos >= fp && step != Some(Step::Pending) => {
+                me.fail_once_at = None;
+                me.step_idx -= 1; // the scripted step is kept for the next read
+                Some(Step::Fail(kind))
+            }
+            _ => step,
+        };
         if let Some(Step::Fail(kind)) = step {
             me.transients.set(me.transients.get() + 1);
             me.last_transient.set(kind);
@@ -206,6 +217,11 @@ impl<'a> AsyncRead for ScriptedReader<'a> {
         n = n.min(cap);
         if let Some((fp, _)) = me.fault {
             n = n.min(fp - me.pos);
+        }
+        if let Some((fp, _)) = me.fail_once_at {
+            if fp > me.pos {
+                n = n.min(fp - me.pos);
+            }
         }
         if me.fill_style == 0 {
             buf.put_slice(&me.data[me.pos..me.pos + n]);
